@@ -1,9 +1,10 @@
-\* C19 thorough: every call site x every transformation path of length <= 5; the harness instantiates
-\* every case 3 times from the value pool.
+\* C19 thorough: as quick with paths of length <= 4, every case on 2 further seeded draws.
 SPECIFICATION Spec
 CONSTANTS
-    MaxSteps = 5
+    MaxSteps = 4
+    ExhaustUpTo = 1
     Emit = TRUE
 INVARIANTS TypeOK Preserved PresenceNeverLost TypedSurvivesBuffering StructureSurvivesBuffering DirectReadKeepsAll
+PROPERTY ReadersAgree
 ACTION_CONSTRAINT EmitReplay
 CHECK_DEADLOCK FALSE
